@@ -52,6 +52,8 @@ def make_config(seed, tier="quick"):
         p_hook=r.choice([0.0, 0.0, 0.3]),
         hook_names=r.sample(["on_state_change", "on_message", "on_logon", "on_logout", "on_disconnect", "on_connect"],
                             r.randint(1, 4)),
+        p_slow_close=r.choice([0.0, 0.0, 0.5]),
+        slow_close_s=r.choice([0.3, 1.3]),
         mid_hook_stimuli=r.random() < 0.3,  # local sends / disconnects while a hook of the Logon handling is parked
         p_act=0.9,
         p_more=r.choice([0.0, 0.3]),
